@@ -26,7 +26,7 @@ import ast
 from dataclasses import dataclass
 from typing import Any, Callable
 
-from .absexec import BUILTIN_EXC, AbsExec, App, Closure, ExcValue, Internal, MObj, Opaque, Raised, Sym, Unknown, _Return
+from .absexec import BUILTIN_EXC, AbsExec, App, Closure, ExcValue, Internal, ListIter, MObj, Opaque, Raised, Sym, Unknown, _Return
 from .pm import AnalysisError, ClassInfo, FunctionInfo, Program, unparse
 
 OPEN, CLOSE = "⟦", "⟧"  # placeholder brackets: never part of a name, a key or a number
@@ -47,14 +47,6 @@ class FuncV:
 
     def __repr__(self) -> str:
         return f"<function {self.fi.qualname}>"
-
-
-class ListIter:
-    """iter(sequence): a position in a concrete sequence; `next()` advances it and a for loop continues from where it stands."""
-
-    def __init__(self, items: list):
-        self.items = items
-        self.pos = 0
 
 
 class Decimals(int):
@@ -208,6 +200,9 @@ class ObjExec(AbsExec):
         hook = self.func_hooks.get(fi.qualname)
         if hook is not None:
             return hook(self, e, args, kw)
+        self.__dict__.setdefault("entered", set()).add(fi.qualname)  # which functions the interpretation went through (and on which classes of object)
+        if args and isinstance(args[0], MObj) and fi.cls is not None:
+            self.entered.add(f"{fi.name}:{args[0].cls}")
         self.depth += 1
         if self.depth > 60:
             self.depth -= 1
@@ -530,7 +525,9 @@ class ObjExec(AbsExec):
         return self.to_str(val, e)
 
     def attr(self, v: Any, name: str, e: ast.AST) -> Any:
-        if type(v).__name__ == "Match" and type(v).__module__ == "re":
+        if type(v).__name__ in ("Match", "Pattern") and type(v).__module__ == "re":
+            if name in ("pattern", "flags", "string", "re", "lastgroup", "lastindex"):
+                return getattr(v, name)
             return ("bound", v, name)
         if isinstance(v, Arr):
             if name == "T":
@@ -670,6 +667,8 @@ class ObjExec(AbsExec):
                 return h(self, e, args, kw)
             what = f.name if isinstance(f, TypeV) else f.what
             what = what.removeprefix("import:")
+            if what in ("deque", "collections.deque"):  # modelled as a list (append / appendleft / pop / popleft are list methods of the interpreter)
+                return list(self.iterate(args[0], e)) if args else []
             if what in ("itertools.chain", "chain"):  # pure functions of the standard library, by their documented meaning
                 return [x for a_ in args for x in self.iterate(a_, e)]
             if what in ("itertools.chain.from_iterable", "chain.from_iterable"):
@@ -678,19 +677,27 @@ class ObjExec(AbsExec):
                 return type(args[0])(args[0])
             if what in ("typing.cast", "cast") and len(args) == 2:
                 return args[1]
-            if what.startswith("re.") and what[3:] in ("sub", "subn", "split", "findall", "match", "fullmatch", "search", "escape") and \
-                    all(isinstance(a_, (str, int)) for a_ in list(args) + list(kw.values())):
-                import re as _re  # regular expressions on concrete strings: a pure function of the standard library, by its documented meaning
-
-                try:
-                    return getattr(_re, what[3:])(*args, **kw)
-                except _re.error:
-                    raise Raised("re.error", e) from None
+            r = self.regex(what, args, kw, e)
+            if r is not NotImplemented:
+                return r
             if what.startswith("np."):  # numpy is uninterpreted: the result is a value nothing is known about
                 from .absexec import freeze
                 return App(what, tuple(freeze(a) for a in args), tuple(sorted((k, freeze(x)) for k, x in kw.items())))
             raise self.unknown(e, f"call of {f}")
         return super().call(e, env)
+
+    def regex(self, what: str, args: list[Any], kw: dict[str, Any], e: ast.AST) -> Any:
+        """Regular expressions on concrete strings (patterns compiled or not): pure functions of the standard library, by their documented meaning."""
+        import re as _re
+
+        concrete = lambda a_: isinstance(a_, (str, int, _re.Pattern))  # noqa: E731
+        if what.startswith("re.") and what[3:] in ("sub", "subn", "split", "findall", "match", "fullmatch", "search", "escape", "compile") and \
+                all(concrete(a_) for a_ in list(args) + list(kw.values())):
+            try:
+                return getattr(_re, what[3:])(*args, **kw)
+            except _re.error:
+                raise Raised("re.error", e) from None
+        return NotImplemented
 
     def arguments(self, e: ast.Call, env: dict[str, Any]) -> tuple[list[Any], dict[str, Any]]:
         args: list[Any] = []
@@ -932,6 +939,10 @@ class ObjExec(AbsExec):
                 return r
         if callable(f) and not isinstance(f, tuple):
             return f(self, e, args, kw)
+        if isinstance(f, Opaque) and f.what.removeprefix("import:").startswith("re."):
+            r = self.regex(f.what.removeprefix("import:"), args, kw, e)
+            if r is not NotImplemented:
+                return r
         raise self.unknown(e, "application of a value that is not a modelled function")
 
     def iterate(self, v: Any, e: ast.AST):  # type: ignore[no-untyped-def]
@@ -958,7 +969,7 @@ class ObjExec(AbsExec):
     def truth(self, v: Any, e: ast.AST) -> bool:
         if isinstance(v, str):
             return bool(v)
-        if type(v).__name__ == "Match" and type(v).__module__ == "re":
+        if type(v).__name__ in ("Match", "Pattern") and type(v).__module__ == "re":
             return True
         if isinstance(v, float) and v != v:
             return True
@@ -988,6 +999,8 @@ class ObjExec(AbsExec):
             if isinstance(x, str):
                 return x in c
             raise Internal("TypeError", f"`{unparse(e)[:60]}`: 'in <string>' requires string as left operand", e)
+        if isinstance(c, MObj) and c.cls == "<factory>" and getattr(self, "factory_contains", None) is not None:
+            return self.factory_contains(c, x)
         if isinstance(c, MObj) and self.class_of(c) is not None:
             m = self.class_of(c).lookup("__contains__")  # type: ignore[union-attr]
             if m is not None:
@@ -1000,6 +1013,10 @@ class ObjExec(AbsExec):
         return super().contains(c, x, e)
 
     def method(self, recv: Any, name: str, args: list[Any], kw: dict[str, Any], e: ast.AST) -> Any:
+        if type(recv).__name__ == "Pattern" and type(recv).__module__ == "re" and name in ("sub", "subn", "split", "findall", "match", "fullmatch", "search"):
+            r = self.regex(f"re.{name}", [recv] + list(args), kw, e)
+            if r is not NotImplemented:
+                return r
         if type(recv).__name__ == "Match" and type(recv).__module__ == "re" and name in ("group", "groups", "start", "end", "span", "groupdict"):
             return getattr(recv, name)(*args)
         if isinstance(recv, Arr):
